@@ -21,7 +21,7 @@ ASSUMPTIONS = ["scipy.optimize.linprog (HiGHS) solves the transport LP exactly (
 EVAL_COUNTER = "evaluate_calls"
 REQUIRED = {"quick": {"compared": 1500, "registry_compared": 26, "insitu_compared": 100,
                       "compared:kl": 50, "compared:tv": 50, "compared:hellinger": 50, "compared:chi2": 50,
-                      "compared:mmd": 100, "compared:wasserstein": 100},
+                      "compared:mmd": 100, "compared:wasserstein": 100, "named_affinity_compared": 700, "mi_alias_compared": 100},
             "thorough": {"compared": 20000, "registry_compared": 100, "insitu_compared": 2000}}
 SHARD_TIMEOUT = {"quick": 900, "thorough": 5400}
 
@@ -48,6 +48,19 @@ class State:
         if dist is None:
             ctx.count("skipped_unknown_class")
             return
+        if any(c.__name__ == "MI" for c in type(gem).__mro__):
+            # "the name 'mi' denotes KL one-vs-all": the same number as KLGEMINI(ovo=False) with the same clipping bound,
+            # at every point - clipped entries included, where the two can only differ by how they treat the clipping
+            import gemclus.gemini as gg
+            twin = gg.KLGEMINI(ovo=False, epsilon=gem.epsilon)
+            v_mi = float(np.asarray(value).reshape(-1)[0]) if np.size(value) == 1 else float("nan")
+            v_kl = float(np.asarray(orig(twin, P.copy(), A, False)).reshape(-1)[0])
+            ctx.count("mi_alias_compared")
+            if not _gem.interior(P, gem.epsilon):
+                ctx.count("mi_alias_compared_on_clipped_input")
+            if not (abs(v_mi - v_kl) <= 1e-10 * max(1.0, abs(v_kl)) or (v_mi != v_mi and v_kl != v_kl)):
+                ctx.violation("mi-is-kl-ova", "mi-differs-from-kl-ova", observed={"mi": v_mi, "P": P, "epsilon": gem.epsilon},
+                              expected={"kl_ova": v_kl})
         if not _gem.interior(P, gem.epsilon):
             ctx.count("skipped_not_interior")
             return
@@ -208,6 +221,20 @@ def run_case(case, ctx, st):
             info, gem, P, L, A, X = _gem.direct_case(case["seed"], ID, idx, big=True, big_n=48, big_wass=16)
             ctx.case = {"kind": "direct", "seed": case["seed"], "i0": idx, "i1": idx + 1, "info": info}
             ctx.count("direct_calls")
+            desc = info["gemini"]
+            if isinstance(desc, dict) and isinstance(desc.get("kernel", desc.get("metric")), str) \
+                    and desc.get("kernel", desc.get("metric")) != "precomputed":
+                # "kernel MMD", "Wasserstein-1" for the kernel / metric the object names: the affinity the object derives
+                # from data is scikit-learn's, with the given parameters (zero-valued ones included)
+                from sklearn.metrics import pairwise_kernels, pairwise_distances
+                kw = desc.get("params") or {}
+                want = pairwise_kernels(X, metric=desc["kernel"], **kw) if desc["cls"] == "MMDGEMINI" else pairwise_distances(X, metric=desc["metric"], **kw)
+                got = np.asarray(gem.compute_affinity(X), dtype=float)
+                ctx.count("named_affinity_compared")
+                if got.shape != want.shape or not np.allclose(got, want, rtol=1e-12, atol=1e-12 * float(np.max(np.abs(want)) or 1.0), equal_nan=True):
+                    ctx.violation("named-affinity", f"affinity-not-the-named-{'kernel' if desc['cls'] == 'MMDGEMINI' else 'metric'}",
+                                  observed={"desc": desc, "max_abs_diff": float(np.nanmax(np.abs(got - want))) if got.shape == want.shape else None},
+                                  expected="scikit-learn's pairwise kernel / distance with the given parameters")
             gem(P, A)
             if idx % 3 == 0:
                 gem.evaluate(P, A, return_grad=True)
